@@ -8,14 +8,16 @@ from props import answers, rel
 
 THEOREMS = ["InfOCF.C12_key_formula_invariance_part", "InfOCF.C12_key_formula_invariance_P", "InfOCF.C12_key_formula_invariance_Z",
             "InfOCF.C12_key_formula_invariance_W", "InfOCF.C12_key_formula_invariance_Lex", "InfOCF.C12_query_equiv",
-            "InfOCF.C12_order_invariance", "InfOCF.C12_order_invariance_P", "InfOCF.C12_order_invariance_part", "InfOCF.tolPart_perm", "InfOCF.tolPart_congr", "InfOCF.tolPartExt_congr", "InfOCF.wless_congr", "InfOCF.lexVec_congr", "InfOCF.zrk_congr"]
+            "InfOCF.C12_order_invariance", "InfOCF.C12_order_invariance_P", "InfOCF.C12_order_invariance_part", "InfOCF.C12_atom_renaming", "InfOCF.C12_atom_renaming_part", "InfOCF.C12_signature_extension", "InfOCF.pull_transport", "InfOCF.tolPart_perm", "InfOCF.tolPart_congr", "InfOCF.tolPartExt_congr", "InfOCF.wless_congr", "InfOCF.lexVec_congr", "InfOCF.zrk_congr"]
 RULE = ("random and tie-rich bases (both modes) x 5 queries; each base is presented in 7 ways: parser-style keys 1..n (reference), 0-based keys, "
         "sparse keys, permuted keys, reversed/shuffled conditional order, atoms renamed + signature reordered and extended by unused atoms, "
         "every formula (base and queries) rewritten to an equivalent one (double negation, De Morgan, distribution, constant absorption, "
         "duplicated conjuncts); every operator and back-end (c-inference: strict mode) must give the reference answers; "
         "non-trivial = contingent query on a base with >= 2 conditionals; distinct by (base, query, presentation)")
-ASSUMPTIONS = ["invariance under atom renaming and signature extension is covered by the correspondence only; the Lean theorems cover re-keying, "
-               "replacement of formulas by equivalent ones (position-wise same verification/falsification sets) and permutation of the conditional list"]
+ASSUMPTIONS = ["the Lean theorems cover re-keying, replacement of formulas by equivalent ones (position-wise same verification/falsification sets), "
+               "permutation of the conditional list, renaming of the atoms by any injection of signatures and extension of the signature by unused atoms "
+               "(C12_atom_renaming, C12_signature_extension) for p-entailment, System Z, System W and lexicographic inference in both modes; "
+               "c-inference is covered by the correspondence only"]
 
 CFG_STRICT = rel.STRICT_CFG
 CFG_EXT = rel.EXT_CFG
